@@ -20,7 +20,7 @@ ASSUMPTIONS = [
 ]
 REQUIRED = ['pass_with_mixed_priorities', 'fired_from_handler_during_pass', 'stop_called', 'nested_flush', 'equal_priority_ties',
             'negative_and_float_priorities', 'nested_flush_on_last_of_batch', 'multi_channel_event', 'stop_then_raise',
-            'manager_with_many_events_behind_it', 'events_pending_on_a_component_that_joins_the_tree']
+            'manager_with_many_events_behind_it', 'events_pending_on_a_component_that_joins_the_tree', 'event_object_fired_again_by_its_own_handler']
 REQUIRED_OBLIGATIONS = ['ORD', 'NOJUMP', 'NOREENTRY', 'HPRIO', 'STOP', 'ONCE']
 WORKER_TIMEOUT = {'quick': 300, 'thorough': 1500}
 ENGINE = 'stepping-driver'
@@ -183,6 +183,11 @@ def evaluate(case, w):
             marks.add('multi_channel_event')
             decl = [(h, p) for h, p in decl if hchan.get(h) in chans]
         ran = hs.get(uid, [])
+        if info.get('refire_of') is not None:
+            # the later dispatch of an event object that one of its own handlers fired again: whether an earlier stop() of that object
+            # still holds for it is not stated - which of its handlers run is observed, not asserted
+            marks.add('event_object_fired_again_by_its_own_handler')
+            continue
         counts['ALLRUN'] += 1
         if uid in stops:
             must = sorted(h for h, p in decl if p > stops[uid])
@@ -223,6 +228,11 @@ def corpus():
         HD(1, 'a', 5, []), HD(2, 'a', 2.5, [['stop'], ['raise']]), HD(3, 'a', 1, []), HD(4, 'a', -0.5, []),
         HD(5, 'b', 2, [['raise']]), HD(6, 'b', 1, [['fire', EV('a', -1)], ['stop'], ['raise']]), HD(7, 'b', 0, [])],
         'passes': [[EV('a'), EV('b'), EV('a', 1)]]})
+    # a handler stops the event and hands the same object on (fires it again): the stop holds for the delivery in progress
+    cs.append({'name': 'stop-then-forward', 'handlers': [
+        HD(1, 'a', 10, []), HD(2, 'a', 2.5, [['stop'], ['refire_same', None]]), HD(3, 'a', 0, []), HD(4, 'a', -3, []),
+        HD(5, 'b', 1, [['refire_same', -1.5], ['stop']]), HD(6, 'b', 0, []), HD(7, 'c', 2, [['stop'], ['refire_same', 3], ['fire', EV('a', 0)]]), HD(8, 'c', 1, [])],
+        'passes': [[EV('a'), EV('b'), EV('c')], [EV('c', 1), EV('a', -1)]]})
     # nested flush in the middle and on the last event of a batch
     cs.append({'name': 'nested-flush', 'handlers': [
         HD(1, 'a', 0, [['fire', EV('c', -1)], ['flush'], ['fire', EV('c', 1)]]), HD(2, 'b', 0, [['fire', EV('c', 0)], ['flush']]),
@@ -260,6 +270,7 @@ def gen_case(rng):
     names = {lv: ['e%d_%d' % (lv, i) for i in range(rng.randint(1, 2))] for lv in range(nlev)}
     hid = 0
     handlers = []
+    refirers = set()
     for lv in range(nlev):
         for nm in names[lv]:
             for _ in range(rng.randint(1, 3)):
@@ -272,6 +283,10 @@ def gen_case(rng):
                         body.append(['fire', EV(rng.choice(names[tl]), rng.choice(PRIOS))])
                     elif r < 0.72:
                         body.append(['stop'])
+                        if rng.random() < 0.15 and nm not in refirers:
+                            # (one forwarding handler per event type, forwarding once)
+                            refirers.add(nm)
+                            body.append(['refire_same', rng.choice([None, None, -1, 1.5])])
                     elif r < 0.82:
                         body.append(['flush'])
                 if rng.random() < 0.12:
